@@ -1567,7 +1567,9 @@ impl<'p> Harness<'p> {
             let all: HashSet<Tag> = self.model.cone(&roots).into_iter().collect();
             let mut victim = None;
             for &oi in &live {
-                let cone = self.model.cone(&[self.obs[oi].node]);
+                // (everything the engine will touch while linking, also below a node that is about
+                // to be invalidated because another of its inputs is invalid)
+                let cone = self.model.link_cone(&[self.obs[oi].node]);
                 let orphan = cone.iter().any(|t| {
                     let n = self.model.node(*t);
                     n.valid
